@@ -345,3 +345,71 @@ Definition guard_examples : list (string * list value) := [
 ]%Z.
 Lemma guard_examples_hold : forallb in_guard_same guard_examples = true.
 Proof. vm_compute. reflexivity. Qed.
+
+(* ---- at the sites of the integer and Roman writers the two readings coincide (so these sites never leave the
+   guard): consequences of IntProofs.go_int_text_is_render_int and WordProofs.go_roman_is_roman ---------------- *)
+From C15 Require Import IntProofs WordProofs.
+Lemma get_chr_single : forall i ps d a, get_chr i ps [d] = Some a -> exists x, a = [x].
+Proof.
+  intros i ps d a H. unfold get_chr in H.
+  destruct (nth_error ps i) as [p|]; [destruct p as [| |x|v]; try discriminate; try (destruct v; try discriminate)|];
+    ok_inv H; eauto.
+Qed.
+(* ~D ~B ~O ~X (and S's ~nR) of an integer: same result, same taint, for every parameter list and control record *)
+Theorem integer_site_coincides : forall base off colon at_ ps c z, (2 <= base <= 36)%N ->
+  arg_at c = Some (VInt z) -> dir_int true base off colon at_ ps c = dir_int false base off colon at_ ps c.
+Proof.
+  intros base off colon at_ ps c z Hb Ha. unfold dir_int, take_arg. rewrite Ha.
+  assert (Hp : (0 <=? c_apos c)%Z = true).
+  { unfold arg_at in Ha. destruct (c_apos c <? 0)%Z eqn:E; [discriminate|]. apply Z.ltb_ge in E. apply Z.leb_le. exact E. }
+  rewrite Hp.
+  destruct (get_int off ps 0 true) as [mincol| |]; try reflexivity.
+  destruct (get_chr (off + 1) ps [sp]) as [padchar|] eqn:Ep; try reflexivity.
+  destruct (get_chr (off + 2) ps [","%char]) as [commachar|] eqn:Ec; try reflexivity.
+  destruct (get_int (off + 3) ps 3 true) as [commaint| |]; try reflexivity.
+  destruct (commaint <? 1)%Z eqn:Ek; [reflexivity|]. apply Z.ltb_ge in Ek.
+  destruct (get_chr_single _ _ _ _ Ep) as [p ->]. destruct (get_chr_single _ _ _ _ Ec) as [cm ->].
+  cbn [hd]. rewrite go_int_text_is_render_int by (try assumption; lia).
+  rewrite text_eqb_refl. reflexivity.
+Qed.
+(* ~@R and ~:@R of 1..3999 (tables as in the source): same result, no taint added *)
+Theorem roman_site_coincides : forall colon c z, (1 <= z <= 3999)%Z -> arg_at c = Some (VInt z) ->
+  dir_radix true src_tables colon true [] c = dir_radix false src_tables colon true [] c.
+Proof.
+  intros colon c z Hz Ha. unfold dir_radix. rewrite Ha.
+  destruct (nargs c <=? c_apos c)%Z; [reflexivity|].
+  rewrite (go_roman_is_roman colon z Hz).
+  destruct (std_roman colon z) as [t|]; unfold pick; cbn [opt_text_eqb]; rewrite ?text_eqb_refl; reflexivity.
+Qed.
+
+(* ---- dirR's English loop against the definition: a bounded sweep (labelled as such) ------------------------------- *)
+(* where the loop of dirR, with the tables as they stand, writes the defined text: no group of three digits has a
+   tens digit 2..9 with a units digit 0, the group of 10^18 is zero (quantillion), the number is below 10^66; and for
+   ordinals the last two digits are 01..19 or the last digit is not 0 *)
+Fixpoint groups_ok (fuel : nat) (n : N) (k : nat) : bool :=
+  match fuel with
+  | O => true
+  | S f => if (n =? 0)%N then true
+           else let t := (n mod 1000)%N in
+                ((t mod 100 <? 20)%N || negb (t mod 10 =? 0)%N) && (negb (Nat.eqb k 6) || (t =? 0)%N) &&
+                groups_ok f (n / 1000)%N (S k)
+  end.
+Definition english_ok (ordinal : bool) (n : N) : bool :=
+  (n <? ten66)%N && groups_ok 30 n 0 &&
+  (negb ordinal || (n =? 0)%N || ((1 <=? n mod 100)%N && (n mod 100 <? 20)%N) || negb (n mod 10 =? 0)%N).
+Definition english_agrees (ordinal : bool) (n : N) : bool :=
+  Bool.eqb (opt_text_eqb (go_english src_tables ordinal (dec_text (Z.of_N n))) (std_english ordinal (Z.of_N n)))
+           (english_ok ordinal n).
+Definition sweep (ordinal : bool) (hi lo : nat) : bool :=
+  forallb (fun i => forallb (fun j => english_agrees ordinal (N.of_nat i * 1000 + N.of_nat j)%N) (seq 0 lo)) (seq 0 hi).
+(* every n below 20000, cardinal and ordinal: the loop writes the defined text exactly when english_ok holds *)
+Lemma english_sweep_20000 : sweep false 20 1000 = true /\ sweep true 20 1000 = true.
+Proof. split; vm_compute; reflexivity. Qed.
+(* and on a few hundred numbers spread over all magnitudes, negative ones included *)
+Definition spread : list Z :=
+  flat_map (fun k => map (fun m => (m * 10 ^ Z.of_nat k + 7 * 10 ^ Z.of_nat (k / 2) + 13)%Z) [1; 19; 20; 21; 99; 100; 101; 110; 120; 999; -5; -40; -215]%Z)
+           (seq 0 66).
+Definition english_agrees_z (ordinal : bool) (z : Z) : bool :=
+  Bool.eqb (opt_text_eqb (go_english src_tables ordinal (dec_text z)) (std_english ordinal z)) (english_ok ordinal (Z.abs_N z)).
+Lemma english_spread : forallb (english_agrees_z false) spread = true /\ forallb (english_agrees_z true) spread = true.
+Proof. split; vm_compute; reflexivity. Qed.
